@@ -192,7 +192,12 @@ func runClient(w *World, h http.Handler, p TunnelPlan, o *TunnelObs) {
 		case op == "close":
 			c.SendSegment(tsgu.CloseChannel())
 		case op == "bad":
-			c.SendSegment(tsgu.Handshake(1, 0, 0, tsgu.ExtAuthPAA))
+			// a packet that is out of order in every phase the script can be in
+			if p.StopAt == "open" {
+				c.SendSegment(tsgu.TunnelAuth("pc"))
+			} else {
+				c.SendSegment(tsgu.Handshake(1, 0, 0, tsgu.ExtAuthPAA))
+			}
 		case op == "garbage":
 			c.SendSegment([]byte{0xA, 0, 0, 0, 3, 0, 0, 0, 1, 2})
 			c.SendSegment([]byte{9, 9, 9})
